@@ -9,6 +9,7 @@ import (
 	"fmt"
 	"os"
 	"sort"
+	"strings"
 	"time"
 )
 
@@ -111,6 +112,15 @@ func (r *Report) Violate(key, what string, replay map[string]interface{}) {
 	if v := r.Violations[key]; v != nil {
 		v.Count++
 		return
+	}
+	if len(r.Violations) >= 60 {
+		// keep the artefact list readable: further distinct keys are folded
+		parts := strings.SplitN(key, "|", 3)
+		key = strings.Join(parts[:min(2, len(parts))], "|") + "|…more"
+		if v := r.Violations[key]; v != nil {
+			v.Count++
+			return
+		}
 	}
 	r.Violations[key] = &Violation{Key: key, What: what, Replay: replay, Count: 1}
 }
